@@ -462,6 +462,28 @@ impl Property for C12 {
             fail(&mut out, "register|refused-after-run", format!("registering a hook after the run was refused: {}", e.to_string().lines().next().unwrap_or("")));
             return out;
         }
+        // … and it takes effect: a built-in handler registered now (possibly after an attempt from inside a
+        // hook was refused) serves the next syscall. Only where the machine can still step and no scripted
+        // hook sits on SYSCALL in front of it.
+        let hs = h.handle_syscalls(vec![ax_x86::helpers::syscalls::Syscall::Brk]);
+        if let Err(e) = hs {
+            fail(&mut out, "register|handle-syscalls-refused-after-run", format!("handle_syscalls([Brk]) after the run was refused: {}", e.to_string().lines().next().unwrap_or("")));
+            return out;
+        }
+        let syscall_hooked = c.hooks.iter().any(|hk| MNEMS[hk.mnemonic % MNEMS.len()] == iced_x86::Mnemonic::Syscall);
+        if !h.verif_finished() && !syscall_hooked && h.mem_init_area(0x9000_0000, vec![0x0f, 0x05, 0x90, 0x90]).is_ok() && h.mem_prot(0x9000_0000, 5).is_ok() {
+            h.reg_write_64(SR::RIP, 0x9000_0000).unwrap();
+            h.reg_write_64(SR::RAX, 12).unwrap();
+            h.reg_write_64(SR::RDI, 0).unwrap();
+            let r = step(&mut h);
+            prog::take_events();
+            classes.push("late-built-in-handler-probed");
+            let rax = h.reg_read_64(SR::RAX).unwrap();
+            if !r.is_ok() || rax == 12 {
+                fail(&mut out, "register|late-handler-not-effective", format!("handle_syscalls([Brk]) was accepted after the run, but a following brk(0) answered {} with rax={:#x}", r.short(), rax));
+                return out;
+            }
+        }
         classes.sort();
         classes.dedup();
         for cl in classes {
@@ -471,10 +493,10 @@ impl Property for C12 {
     }
 
     fn rule(&self) -> String {
-        "cases: forward-only slot-grid programs of 1–16 instructions (incl. SYSCALL) with 1–8 scripted hooks concentrated on ≤3 mnemonics (before/after, per-invocation outcome from {unhandled, handled, stop, stop+handled, error, stop-then-error}, optional modification of a register or of RIP (redirecting execution to another slot), optional registration from inside a hook) plus hooks of mnemonics that do not occur; step-wise protocol model against a hook-free twin stepped in lock-step and given the same modifications (pre-state/post-state seen by hooks, at most once, completeness, strict short-circuit, failing hook ⇒ Err, stop ⇒ finished and a further step fails, foreign hooks never fire, inner registration refused, registration after the run accepted); 1/3 of the cases use execute() for the whole-run clauses; non-trivial = ≥2 hooks on one mnemonic and ≥1 non-'unhandled' outcome; distinct by hash(case)".into()
+        "cases: forward-only slot-grid programs of 1–16 instructions (incl. SYSCALL) with 1–8 scripted hooks concentrated on ≤3 mnemonics (before/after, per-invocation outcome from {unhandled, handled, stop, stop+handled, error, stop-then-error}, optional modification of a register or of RIP (redirecting execution to another slot), optional registration from inside a hook) plus hooks of mnemonics that do not occur; step-wise protocol model against a hook-free twin stepped in lock-step and given the same modifications (pre-state/post-state seen by hooks, at most once, completeness, strict short-circuit, failing hook ⇒ Err, stop ⇒ finished and a further step fails, foreign hooks never fire, inner registration — a plain hook and a built-in syscall handler — refused, registration after the run accepted and effective: a brk handler registered then serves a following syscall); 1/3 of the cases use execute() for the whole-run clauses; non-trivial = ≥2 hooks on one mnemonic and ≥1 non-'unhandled' outcome; distinct by hash(case)".into()
     }
     fn required_classes(&self, _tier: Tier) -> Vec<String> {
-        ["mode:step", "mode:execute", "short-circuit", "stop", "hook-fails", "registration-from-inside", "run:stopped", "run:hook-failed", "before-hook-redirects-rip"].iter().map(|s| s.to_string()).collect()
+        ["mode:step", "mode:execute", "short-circuit", "stop", "hook-fails", "registration-from-inside", "run:stopped", "run:hook-failed", "before-hook-redirects-rip", "late-built-in-handler-probed"].iter().map(|s| s.to_string()).collect()
     }
     fn assumptions(&self) -> Vec<String> {
         vec![
